@@ -46,6 +46,7 @@ def run(rep, tier):
     rnd = common.rng("L9")
     n = 1500 if tier == "thorough" else 250
     cases, meta = [], []
+    mcases = []      # (index of the harness case, the same session for the model: ocaml/lane_repl.ml over Model/Repl.v's route)
     for k in range(n):
         p, _ = progen.program(rnd, n_lines=rnd.randrange(2, 7), max_depth=rnd.choice([2, 3]))
         lines = p[:-1]            # without the final observation tuple
@@ -54,6 +55,7 @@ def run(rep, tier):
         stmts = [sast.line(l) for l in lines]
         cases.append(f"(repl {names_sx} " + " ".join(q(s) for s in stmts) + ")")
         meta.append(("repl", k, len(stmts), names))
+        mcases.append((len(cases) - 1, f"(repl {names_sx} " + " ".join(sast.sx(l) for l in lines) + ")"))
         for j in range(1, len(stmts) + 1):
             cases.append(f"(batch {names_sx} " + q(";\n".join(stmts[:j]) + ";") + ")")
             meta.append(("batch", k, j, names))
@@ -63,6 +65,8 @@ def run(rep, tier):
             chunk = ";\n".join(stmts[:j]) + ";"
             cases.append(f"(repl {names_sx} " + q(chunk) + " " + " ".join(q(s) for s in stmts[j:]) + ")")
             meta.append(("repl-split", k, j, names))
+            mcases.append((len(cases) - 1, f"(repl {names_sx} (input " + " ".join(sast.sx(l) for l in lines[:j]) + ") "
+                           + " ".join(sast.sx(l) for l in lines[j:]) + ")"))
     # crafted sessions: state carried from one input to the next in every way the language offers
     CRAFTED = [
         ["c := mut 0", "c += 1", "f := () -> int { return *c }", "c = 5", "r := f()"],
@@ -102,6 +106,22 @@ def run(rep, tier):
     out = common.run_cases(common.HARNESS, cases, timeout=900)
     rep.evaluations += len(cases)
     rep.distinct.update(cases)
+    # model REPL vs implementation REPL, step by step (acceptance class, result, every top-level variable)
+    mout = common.run_cases(common.DRIVER, [c for _, c in mcases], env={"VERIF_HELPERS": l7_programs.HELPERS}, timeout=600)
+    rep.evaluations += len(mcases)
+    for (idx, mc), mo_ in zip(mcases, mout):
+        ms, is_ = parse_repl(mo_), parse_repl(out[idx])
+        if mo_.startswith("!") or any("!fuel" in x for x in ms):
+            rep.count("L9.model-repl.skipped")
+            continue
+        rep.compared += 1
+        rep.count("L9.model-repl.compared")
+        norm = lambda x: "reject" if x.startswith("reject") else x
+        if [norm(x) for x in ms] != [norm(x) for x in is_]:
+            j = next((i for i, (a, b) in enumerate(zip(ms, is_)) if norm(a) != norm(b)), min(len(ms), len(is_)))
+            rep.disagreements.append({"lane": "L9", "case": cases[idx], "model_case": mc,
+                                      "model": (ms[j] if j < len(ms) else "<no step>")[:400],
+                                      "impl": (is_[j] if j < len(is_) else "<no step>")[:400], "step": j + 1})
     by_prog = {}
     for c, m, o in zip(cases, meta, out):
         by_prog.setdefault(m[1], []).append((c, m, o))
